@@ -387,7 +387,7 @@ class Gen:
         r = self.r.random()
         if r < 0.7:
             return {"t": "host", "decls": self.declarations(), "combo": None}
-        combo = self.pick(["func", "class", "descendant", "list"])
+        combo = self.pick(["func", "class", "descendant", "list", "attr", "attr-desc", "pseudo", "id"])
         return {"t": "host", "decls": self.declarations(), "combo": combo}
 
     def at_rule(self, depth, sel_depth):
